@@ -8,7 +8,7 @@ import (
 
 func c14Observable(fx []frEffect, i int) (out []frEffect) {
 	for _, x := range fx {
-		if x.file == i && (x.kind == "write" || x.kind == "diff" || x.kind == "stdout" || x.kind == "stderr") {
+		if x.file == i && (x.kind == "write" || x.kind == "fsmut" || x.kind == "diff" || x.kind == "stdout" || x.kind == "stderr") {
 			out = append(out, x)
 		}
 	}
